@@ -323,6 +323,22 @@ class Opaque(object):
         return "<opaque %s>" % self._what
 
 
+class _TypeShim(object):
+    """Callable stand-in for a builtin type (int, float) that also answers isinstance."""
+
+    def __init__(self, name, conv, isin):
+        self.name = name
+        self.__name__ = name
+        self.conv = conv
+        self.isin = isin
+
+    def __call__(self, *a, **k):
+        return self.conv(*a, **k)
+
+    def __repr__(self):
+        return "<class '%s'>" % self.name
+
+
 class _Signal(object):
     __slots__ = ("kind", "value")
 
@@ -477,8 +493,8 @@ class Interp(object):
         b["getattr"] = self.b_getattr
         b["hasattr"] = self.b_hasattr
         b["setattr"] = self.b_setattr
-        b["int"] = self.b_int
-        b["float"] = self.b_float
+        b["int"] = _TypeShim("int", self.b_int, lambda x: isinstance(x, int))
+        b["float"] = _TypeShim("float", self.b_float, lambda x: isinstance(x, (float, Fraction)))
         b["sum"] = self.b_sum
         b["classmethod"] = ClassMethod
         b["staticmethod"] = StaticMethod
@@ -492,6 +508,8 @@ class Interp(object):
     def b_isinstance(self, x, c):
         if isinstance(c, tuple):
             return any(self.b_isinstance(x, cc) for cc in c)
+        if isinstance(c, _TypeShim):
+            return c.isin(x)
         if isinstance(c, ClassVal):
             return isinstance(x, Obj) and c in x.cls.mro()
         if isinstance(c, ArrayType):
